@@ -40,6 +40,8 @@ KEYS = tuple(FLOORS["quick"].keys()) + ("back_to_back", "idle_then_arrival", "ar
 # floors for the situations added with the later rounds of seeded changes (evidence that they were really exercised)
 FLOORS["quick"].update({'echoed_arrivals_inside_next_hop_put': 6000})
 FLOORS["thorough"].update({'echoed_arrivals_inside_next_hop_put': 30000})
+FLOORS["quick"].update({'debug_tracing_cases': 130, 'rr_table_as_tuple_cases': 60})
+FLOORS["thorough"].update({'debug_tracing_cases': 650, 'rr_table_as_tuple_cases': 300})
 
 
 def plan(tier):
